@@ -2,7 +2,7 @@
 # usage: tools/run_all.sh [quick|thorough] [ids...]   - runs checks sequentially, prints summary lines
 tier=${1:-quick}; shift
 ids="$@"; [ -z "$ids" ] && ids="C01 C02 C03 C04 C05 C06 C07 C08 C09 C10 C11 C12 C13 C14 C15 C16 C17 C18 C19 C20"
-cd /verif
+cd "$(dirname "$0")/.."
 for id in $ids; do
   out=$(./check $id --tier $tier 2>&1); rc=$?
   echo "rc=$rc $(echo "$out" | grep -E "^$id tier")"
